@@ -113,6 +113,38 @@ CLAIMS["C05"] = (
     TRUSTED,
     "DESIGN.md §4 C05")
 
+CLAIMS["C17"] = (
+    "static analysis: THIR shape of compile()'s selection loop and error returns; use inventory of build_pipeline's "
+    "shared &Module parameter (only Clone::clone); MIR dominance of pipeline registration by the duplicate-name test",
+    "Decides selection and isolation structurally: the loop iterates ir.pipelines in order and skips exactly on a "
+    "different requested name, the missing-pipeline errors are returned under is_empty(), no-pipeline mode builds once "
+    "with None; build_pipeline touches the shared module only to clone it and runs selection, slot assignment and "
+    "export on the clone; per-pipeline metadata comes from the selected definition; duplicate pipeline names are "
+    "rejected before registration. Does not decide output equality across compilations.",
+    TRUSTED + "Module::clone yields an independent copy.",
+    "DESIGN.md §4 C17")
+CLAIMS["C18"] = (
+    "static analysis: MIR backward slices (data + control dependence) of the front-end calls' arguments w.r.t. "
+    "args.target; reader inventory of the Vulkan-only switches; sibling agreement of exporter tables and target arms",
+    "Decides that preprocess / prepare_tokens / parse / type_check / check_layout receive arguments that do not depend on "
+    "the target except through the RSSL_TARGET_* define values and run for every target; that only the six confirmed "
+    "functions of rssl_hlsl read for_spirv / requires_vk_binding / requires_buffer_address; that both exporters share the "
+    "descriptor table and both target arms of build_pipeline fill stages, metadata and pipeline state identically. "
+    "Does not decide textual difference of the two HLSL flavours.",
+    TRUSTED + "A new reader of a Vulkan switch is reported even if harmless (documented soft spot).",
+    "DESIGN.md §4 C18")
+CLAIMS["C19"] = (
+    "static analysis: MIR dominance of check_layout by validate_layout_consistency and before build_pipeline; sibling "
+    "agreement between check_layout's intrinsic list and intrinsic_data's templated buffer methods; THIR shape of the "
+    "layout accumulator",
+    "Decides the wiring (validation runs iff enabled, before any pipeline is built, its error is returned), coverage "
+    "(every templated typed load/store that intrinsic_data declares on buffer objects and both structured buffer kinds "
+    "are validated) and the shape of the size/alignment computation (align-up then add, max alignment, Metal vector "
+    "rounding, array multiply, round-to-alignment and size comparison of the two modes). Does NOT decide soundness "
+    "against the real HLSL/Metal layout rules: the checker compares total sizes only, which the property text notes.",
+    TRUSTED,
+    "DESIGN.md §4 C19")
+
 NOT_YET = "rules for this property are not built yet in this round (see DESIGN.md §10 build order); no claim is made"
 
 
